@@ -23,7 +23,7 @@ LEVEL = 'exploration'
 HEADERS = {'quick': 1500, 'thorough': 20000}
 NSHARDS = {'quick': 12, 'thorough': 24}
 
-ALPHABET = list('abcXYZ019_ -+*/%#=!?.,:;()[]{}<>|&^~@$') + ['"', "'", '\\', '`', '\t', 'é', 'ß', '€', '名', ' ']
+ALPHABET = list('abcXYZ019_ -+*/%#=!?.,:;()[]{}<>|&^~@$') + ['"', "'", '\\', '`', '\t', 'é', 'ß', '€', '名', ' ', '\x0b', '\x0c', '\x1c', '\x1e', '\x85', '\u2028', '\u2029', '\xa0']
 IDENT_POOL = ['name', 'age', 'x', 'X', 'x1', 'x10', 'name2', 'Name', 'NAME', '_id', 'id_', 'value', 'val', 'va', 'total', 'home_town', 'c', 'k9', 'zz', 'col1', 'a_', 'b_1', 'ab', 'length2', 'idx', 'NR', 'NF', 'NU', 'nr', 'aNR', 'bNR', 'length', 'constructor', 'toString', '__proto__', 'hasOwnProperty', 'None', 'null', 'undefined', 'a1', 'b2', 'a', 'b']
 RESERVED_DIRECT = {'NR', 'NF', 'NU', 'a', 'b', 'e', 'record_a', 'record_b', 'query_context', 'stop_flag', 'star_fields', 'out_fields', 'sort_key', 'key', 'udf', 'like', 'unnest', 'count', 'sum', 'min', 'max', 'avg', 'median', 'variance', 'array_agg', 'any_value', 'up_fields', 'join_matches', 'join_match', 'bNR', 'bNF', 'aNR', 'select_simple', 'select_unnested', 'safe_get', 'len', 'str', 'int', 'x'} | qast.PY_KEYWORDS
 
